@@ -126,8 +126,10 @@ def run(ctx):
     for name in SUBLANGS:
         cases = sr.generate(ctx, name)
         pcases = sr.generate(ctx, name, "parens")
-        if ctx.quick and len(cases) > 2500:
-            cases = cases[::(len(cases) + 2499) // 2500]
+        cap = 2500 if ctx.quick else 100000
+        if len(cases) > cap:
+            cases = cases[::(len(cases) + cap - 1) // cap]
+            ctx.extra["exhaustive"] = False
         ctx.sample({"sublanguage": name, "variant": pygen.realize(cases[len(cases) // 2], VARIANTS["joins"])[0]})
         check(ctx, cases, pcases, name)
 
